@@ -478,7 +478,7 @@ func c09Random(c *Ctx, idx int) {
 func init() {
 	Register(&Property{
 		ID:            "C09",
-		Rule:          "cost measured deterministically per call: steps = basic-block executions inside the library (compiler coverage counters, atomic mode, cleared before the call), alloc = bytes allocated; R1: 52 families parameterised by an integer magnitude (slice bounds/steps on arrays and strings, index literals, find_* offsets, replace/split counts, numeric exponents in literals, strings and data, zero and small mantissas with huge exponents in every integer-argument position) at 1e3..2^63-1 and negatives must cost <= 2x the cost at magnitude 20 (+1000 steps / +64 KiB); R2: 44 scaling families (array/string/object size, chain/nesting/argument/literal length) at n = 10..1e4 (1e5 thorough) must grow with exponent <= 2.2 on the last decade; R3: seeded random calls must stay within 5000 steps and 4 KiB per unit of (expression + document + intermediate + result size), and a sampler ends any call that exceeds its step budget; 'every call terminates' is decided as bounded progress under these budgets; non-trivial = every measured (family, magnitude/size) or random call; every magnitude family on three size classes of subject data (10 / 300 / 5000 elements and characters), magnitudes beyond the data only; two more size classes with ill-formed UTF-8 subjects (10 and 300 characters); 100 tower families: 20 wrappers (selectors on parenthesised operands, unary builtins, single-element multi-selects, lets, pipes, || && !) around a string / null / array / object / document-string subject, the nesting depth (10..2000) being the size parameter",
+		Rule:          "cost measured deterministically per call: steps = basic-block executions inside the library (compiler coverage counters, atomic mode, cleared before the call), alloc = bytes allocated; R1: 52 families parameterised by an integer magnitude (slice bounds/steps on arrays and strings, index literals, find_* offsets, replace/split counts, numeric exponents in literals, strings and data, zero and small mantissas with huge exponents in every integer-argument position) at 1e3..2^63-1 and negatives must cost <= 2x the cost at magnitude 20 (+1000 steps / +64 KiB); R2: 44 scaling families (array/string/object size, chain/nesting/argument/literal length) at n = 10..1e4 (1e5 thorough) must grow with exponent <= 2.2 on the last decade; R3: seeded random calls must stay within 5000 steps and 4 KiB per unit of (expression + document + intermediate + result size), and a sampler ends any call that exceeds its step budget; 'every call terminates' is decided as bounded progress under these budgets; non-trivial = every measured (family, magnitude/size) or random call; every magnitude family on three size classes of subject data (10 / 300 / 5000 elements and characters), magnitudes beyond the data only; two more size classes with ill-formed UTF-8 subjects (10 and 300 characters); 100 tower families: 20 wrappers (selectors on parenthesised operands, unary builtins, single-element multi-selects, lets, pipes, || && !) around a string / null / array / object / document-string subject, the nesting depth (10..2000) being the size parameter; 10 expref-tower families: max_by / min_by / sort_by / group_by / map / filters / projections / lets nested through the expression-reference position over a document of matching depth",
 		MinNontrivial: 300,
 		Streams: []Stream{
 			{Name: "magnitude", Setup: c09Setup, N: c09MagN, Run: c09Mag, Exhaustive: true},
